@@ -35,6 +35,7 @@ def write_and_run(prop, name, header_comment, includes, body, main_body, sources
     path = os.path.join(d, re.sub(r'[^\w.-]', '_', name) + ".cpp")
     with open(path, "w") as f:
         f.write("/*\n" + header_comment.replace("*/", "* /") + "\n*/\n")
+        f.write("// replay-build: lib=%s flags=%s sources=%s libs=%s\n" % (lib or "-", ",".join(flags) or "-", ",".join(sources) or "-", ",".join(libs) or "-"))
         for inc in includes:
             f.write('#include %s\n' % inc)
         f.write(PRELUDE)
@@ -118,3 +119,44 @@ def cleanup_libs():
         if objs:
             shutil.rmtree(os.path.dirname(objs[0]), ignore_errors=True)
     _lib_cache.clear()
+
+
+def rerun(path, timeout=300):
+    """`./check <ID> --replay <file>`: compile a stored replay program against the current working tree and run it.  Returns the exit status to report
+    (1: the violation reproduces, 0: it does not, 2: the file cannot be replayed)."""
+    if not path.endswith(".cpp"):
+        print(open(path).read())
+        print("(this violation has no replayable input: the file above holds the failed obligation and the solver's output)")
+        return 1 if "failed obligation" in open(path).read() else 2
+    text = open(path).read()
+    m = re.search(r'^// replay-build: lib=(\S+) flags=(\S+) sources=(\S+) libs=(\S+)$', text, re.M)
+    if not m:
+        print("no replay-build line in %s" % path); return 2
+    lib, flags, sources, libs = [None if x == "-" else x for x in m.groups()]
+    flags = flags.split(",") if flags else []
+    srcs = []
+    for s_ in (sources.split(",") if sources else []):
+        srcs += sorted(glob.glob(os.path.join(REPO, s_)))
+    if lib:
+        objs = build_lib(lib, flags)
+        if objs is None:
+            print("the working tree's library sources do not compile"); return 2
+        srcs += objs
+    code = text[:text.index("\n/* native replay against")] if "\n/* native replay against" in text else text
+    src = path[:-4] + ".rerun.cpp"; exe = path[:-4] + ".rerun.exe"
+    open(src, "w").write(code)
+    c = subprocess.run(["g++", "-std=c++14", "-O1", "-g", "-w", "-pthread"] + flags + INC + [src] + srcs + ["-o", exe] + (libs.split(",") if libs else []), capture_output=True, text=True, timeout=900)
+    try: os.remove(src)
+    except OSError: pass
+    if c.returncode != 0:
+        print("replay does not compile against this tree:\n" + c.stderr[-1500:]); cleanup_libs(); return 2
+    try:
+        r = subprocess.run([exe], capture_output=True, text=True, timeout=timeout); out, rc = r.stdout[-4000:] + r.stderr[-2000:], r.returncode
+    except subprocess.TimeoutExpired:
+        out, rc = "replay timed out after %ds" % timeout, 124
+    try: os.remove(exe)
+    except OSError: pass
+    cleanup_libs()
+    print(out)
+    print("replay of %s against %s: exit %s -> %s" % (path, REPO, rc, "the violation reproduces" if (rc == 1 or rc == 124 or rc < 0 or rc >= 128) else "does not reproduce on this tree"))
+    return 1 if (rc == 1 or rc == 124 or rc < 0 or rc >= 128) else 0
